@@ -1593,6 +1593,7 @@ impl<'a> Sim<'a> {
             reject = Some(("validator-set-emptied".into(), "applying the update batch leaves CometBFT with an empty validator set".into()));
         }
         if let Some((sig, msg)) = reject {
+            let sig = format!("{sig}:{}", if self.model.aspen_active { "post-aspen" } else { "pre-aspen" });
             self.viol.push("C14", "cometbft-rejects-validator-updates", &sig, step, format!("h={h}: {msg} (batch {:?})", batch.iter().map(|(a, p, _)| (hex::encode(&a[..4]), *p)).collect::<Vec<_>>()));
             // CometBFT would halt here; the run ends
             self.cmt_halted = true;
@@ -1740,7 +1741,12 @@ impl<'a> Sim<'a> {
             ByzOp::InsertOverdraft => {
                 // a correctly signed transfer of more than the stranger account owns
                 let key = self.keys.key(self.cfg.n_accounts).clone();
-                let owned = self.ledger.balances.get(&(key.address_bytes(), asset_id(&denom(0)))).copied().unwrap_or(0);
+                // more than the whole supply of the native asset: no earlier transaction of the same
+                // block can have funded it
+                let owned = match self.prev_totals.get(&asset_id(&denom(0))) {
+                    Some((0, lo)) => *lo,
+                    _ => return None,
+                };
                 let body = TransactionBody::builder()
                     .actions(vec![Action::Transfer(act::Transfer {
                         to: self.keys.address(0),
